@@ -21,6 +21,7 @@ type Candidate struct {
 //   - ExtraGroups may add or replace candidate groups before they are evaluated (poison/tamper faults);
 //   - GroupResult sees the outcome of every candidate (stage is "verify", "test", "eval" or "" when accepted);
 //   - BlockDone sees the reference state before and after each committed block with its StateDelta.
+//
 // Observers report through s.violate(...) / s.stat(...); they draw randomness only from g (the
 // per-block PCG) so the tape stays rectangular.
 type Observer interface {
@@ -44,7 +45,8 @@ type NopObserver struct{}
 func (NopObserver) ExtraGroups(s *Sim, g *Gen, ev *eval.BlockEvaluator, hdr *bookkeeping.BlockHeader, cands []Candidate) []Candidate {
 	return cands
 }
-func (NopObserver) GroupResult(s *Sim, ev *eval.BlockEvaluator, c Candidate, stage string, err error) {}
+func (NopObserver) GroupResult(s *Sim, ev *eval.BlockEvaluator, c Candidate, stage string, err error) {
+}
 func (NopObserver) BlockDone(s *Sim, prev, next *State, blk bookkeeping.Block, delta ledgercore.StateDelta) {
 }
 
